@@ -841,12 +841,16 @@ class Sim:
         for s in self.cfg["syms"] + self.cfg["defsyms"]:
             strings += [s, "k" + s, s + "*s"]
         for n in w.nodes:
-            for s in strings:
+            # one pristine child per node answers the whole probe set (a fresh
+            # registry per string inside it); the warm side runs afterwards so
+            # that the request describes the node before the probes warm it
+            req = {"op": {"k": "unit_batch", "node": n.id, "strings": strings}, "nodes": [n.wire()],
+                   "operands": {}, "usys_defs": []}
+            colds = self.cold(req)["batch"]
+            for s, cold in zip(strings, colds):
                 op = {"k": "unit", "node": n.id, "h": 0, "s": s}
                 self.step_no += 1
-                req = rw.make_cold_request(w, op)
                 warm, _ = rw.run_call(rw.PROBES["unit"], w, op)
-                cold = self.cold(req)
                 diffs = rw.compare(warm, cold)
                 if diffs:
                     edited = n.id in self.flags["nodes_touched"]
